@@ -1,0 +1,47 @@
+//go:build verif
+
+// Contracts read by /verif/govc (comment-only; never compiled into the node).
+
+package accumulation
+
+//@ pred heq(a, b) = forall(k, 0, 32, a[k] == b[k])
+
+// GP (12.9) P: the package hashes of the reports, in order
+//@ func ExtractWorkReportHashes
+//@   props C21
+//@   ensures len: len(output) == len(w) && fresh(output)
+//@   ensures exact: forall(i, 0, len(w), heq(output[i], w[i].PackageSpec.Hash))
+//@   loop rangeindex#0
+//@     invariant range: rangeindex >= -1 && rangeindex < len(w) && len(output) == rangeindex+1 && cap(output) == len(w) && fresh(output)
+//@     invariant exact: forall(i, 0, rangeindex+1, heq(output[i], w[i].PackageSpec.Hash))
+//@     invariant frame: frame_only()
+
+// GP (12.7) E: the kept queue contains no report whose package hash is in x and no dependency that is in x
+//@ func QueueEditingFunction
+//@   props C21
+//@   ghost g int
+//@   ghost j int
+//@   ghost d int
+//@   ensures no_accumulated_report: 0 <= g && g < len(x) && 0 <= j && j < len(newQueue) ==> !heq(x[g], newQueue[j].Report.PackageSpec.Hash)
+//@   ensures no_accumulated_dependency: 0 <= g && g < len(x) && 0 <= j && j < len(newQueue) && 0 <= d && d < len(newQueue[j].Dependencies) ==> !heq(x[g], newQueue[j].Dependencies[d])
+//@   ensures shorter: len(newQueue) <= len(r)
+//@   opt skipcover=1
+//@   loop rangeindex#0
+//@     invariant range: rangeindex >= -1 && rangeindex < len(x)
+//@     invariant seen: forall(i, 0, rangeindex+1, has(finishedReportHashes, x[i]))
+//@     invariant frame: frame_only()
+//@   loop rangeindex#1
+//@     invariant range: rangeindex >= -1 && rangeindex < len(r) && len(newQueue) <= rangeindex+1 && (newQueue == nil || fresh(newQueue))
+//@     invariant all: forall(i, 0, len(x), has(finishedReportHashes, x[i]))
+//@     invariant rep: 0 <= g && g < len(x) && 0 <= j && j < len(newQueue) ==> !heq(x[g], newQueue[j].Report.PackageSpec.Hash)
+//@     invariant dep: 0 <= g && g < len(x) && 0 <= j && j < len(newQueue) && 0 <= d && d < len(newQueue[j].Dependencies) ==> !heq(x[g], newQueue[j].Dependencies[d])
+//@     invariant alive: 0 <= j && j < len(newQueue) ==> allocated(newQueue[j].Dependencies)
+//@     invariant frame: frame_only()
+//@   loop rangeindex#2
+//@     invariant range: rangeindex >= -1 && rangeindex < len(item.Dependencies) && len(remainingDeps) <= rangeindex+1 && cap(remainingDeps) == len(item.Dependencies) && fresh(remainingDeps)
+//@     invariant all: forall(i, 0, len(x), has(finishedReportHashes, x[i]))
+//@     invariant apart: 0 <= j && j < len(newQueue) ==> disjoint(newQueue[j].Dependencies, remainingDeps) && allocated(newQueue[j].Dependencies)
+//@     invariant cur: 0 <= g && g < len(x) && 0 <= d && d < len(remainingDeps) ==> !heq(x[g], remainingDeps[d])
+//@     invariant rep: 0 <= g && g < len(x) && 0 <= j && j < len(newQueue) ==> !heq(x[g], newQueue[j].Report.PackageSpec.Hash)
+//@     invariant dep: 0 <= g && g < len(x) && 0 <= j && j < len(newQueue) && 0 <= d && d < len(newQueue[j].Dependencies) ==> !heq(x[g], newQueue[j].Dependencies[d])
+//@     invariant frame: frame_only()
